@@ -47,7 +47,11 @@ func main() {
 			}
 			name := fmt.Sprintf("fault/%s/%s", fault, sc.tag)
 			explore.Register(hconn.FaultHarness(name, cfg, fault, sc.nreq, sc.pages, 0))
-			fhs = append(fhs, fh{name, 0, 1, sc.quick})
+			qb, tb := 0, 1
+			if sc.tag == "v4-2req" {
+				qb, tb = 1, 2 // one scenario per fault kind gets a schedule-exploring quick run; the others the default schedule per fault position
+			}
+			fhs = append(fhs, fh{name, qb, tb, sc.quick})
 		}
 	}
 	T := 10 * time.Second
